@@ -59,7 +59,7 @@ def guard_fixedtext(msg, caps, whole_fix):
 
 
 def run(c):
-    c.go2coq_sources = ["c03.go", "textmatch.go"]   # private translator build: another family's generator cannot break this check
+    c.go2coq_sources = ["c03.go", "textmatch.go", "c03loop.go"]   # private translator build: another family's generator cannot break this check
     thorough = c.tier == "thorough"
     c.rule = ("direct: renderMessage (hook) on capture sets drawn from 10 name chains whose names prefix one another, in shuffled "
               "order, with typed-nil captures, templates from a token grammar ($name, $name.b, $namez, $$, $nope, lone $), with and "
@@ -78,14 +78,27 @@ def run(c):
                 "known finding: fixedText deliberately renders `$x.f` with x=`&a` as `a.f` (not the exact source text)"]
 
     c.sh([os.path.join(c.verif, "coq", "build.sh")], timeout=3400)
-    c.require_theories("Base/*.v", "Regex/Utf8.v", "Engine/TruncateSpec.v", "Engine/RenderSpec.v")
+    c.require_theories("Base/*.v", "Regex/Utf8.v", "Engine/TruncateSpec.v", "Engine/RenderSpec.v", "Engine/RenderLoop.v")
 
     gen_ok = False
+    loop_ok = False
     if c.go2coq("c03extras", "Gen_C03.v"):
         if c.coq_compile(["Gen_C03.v"]):
             gen_ok = True
-            c.install_tmpl("C03/Inst_Render.v", "C03/C03.v")
-            c.coq_compile(["Inst_Render.v", "C03.v"])
+    # the scanning loop of renderMessage, translated statement by statement; the executed model uses it when it translates
+    if c.go2coq("c03loop", "Gen_C03Loop.v"):
+        if c.coq_compile(["Gen_C03Loop.v"]):
+            loop_ok = True
+    if gen_ok:
+        c.install_tmpl("C03/Inst_Render.v", "C03/Def_RenderLoop.v", "C03/Inst_RenderLoop.v", "C03/C03.v")
+        c.coq_compile(["Inst_Render.v"])
+        if loop_ok:
+            loop_ok = c.coq_compile(["Def_RenderLoop.v"])   # definitions only: the executed model
+        if loop_ok:
+            c.coq_compile(["Inst_RenderLoop.v", "C03.v"])
+        else:
+            c.obligation("coq:Inst_RenderLoop.v", False, "not compiled: the scanning loop did not translate")
+            c.obligation("coq:C03.v", False, "not compiled: a file it depends on failed")
 
     hb = c.build_harness("c03")
     if hb is None:
@@ -241,6 +254,10 @@ def run(c):
             "From Coq Require Import List ZArith Bool Arith.",
             "From RG.Base Require Import Outcome GoInt GoSlice.",
             "From RG.Engine Require Import TruncateSpec RenderSpec.",
+            ("From RG.Engine Require Import RenderLoop.\nFrom RGW Require Import Gen_C03Loop Def_RenderLoop.\n"
+             "Definition render_model (tr : option Z) (caps : list ccap) (w : bytes) (wf : bool) (msg : bytes) : outcome bytes := gen_render_msg tr caps w wf msg."
+             if loop_ok and gen_ok else
+             "Definition render_model (tr : option Z) (caps : list ccap) (w : bytes) (wf : bool) (msg : bytes) : outcome bytes := Ok (render_msg tr caps w wf msg)."),
             "From RGW Require Import Gen_C03." if gen_ok else
             "Definition nodeTextInRange (from to : Z) (src : bytes) : outcome bool := Ok ((0 <=? from)%Z && (from <? len src)%Z && ((0 <=? to)%Z && (to <=? len src)%Z)).",
             "Import ListNotations. Local Open Scope Z_scope.",
@@ -261,7 +278,8 @@ def run(c):
                 "true" if o["whole"].get("fix") else "false", coq_bytes(o["msg"].encode()), coq_bytes(o["out"])) for i, o in rs))
             src.append("].")
             src.append("Definition bad_render := map (fun c => match c with (i, tr, caps, w, wf, msg, out) => i end) (filter (fun c => "
-                       "match c with (i, tr, caps, w, wf, msg, out) => negb (bytes_eqb (render_msg tr (live caps) w wf msg) out) end) rcases).")
+                       "match c with (i, tr, caps, w, wf, msg, out) => match render_model tr (live caps) w wf msg with Ok r => negb (bytes_eqb r out) | Panic _ => true end "
+                       "end) rcases).")
             # nodeText: the file is only needed through its length and the wanted slice; model input = a file of srcn bytes
             # whose [from,to) part is the observed text when in range: use a synthetic file  pad ++ want ++ pad
             src.append("Definition ncases : list (Z * Z * Z * Z * bytes * bytes * bytes) := [")
